@@ -1126,12 +1126,14 @@ impl<'a, 'b, W: Write> Serializer for &'a mut YamlSerializer<'b, W> {
                             self.out.write_str(line)?;
                             self.newline()?;
                         }
-                        if trailing_nl >= 2 {
-                            for _ in 0..(trailing_nl - 1) {
-                                self.out.write_str(indent_str)?;
-                                self.at_line_start = false;
-                                self.newline()?;
-                            }
+                    }
+                    // Keep chomping: every further trailing line break is one more empty line,
+                    // whether or not there is other content.
+                    if trailing_nl >= 2 {
+                        for _ in 0..(trailing_nl - 1) {
+                            self.out.write_str(indent_str)?;
+                            self.at_line_start = false;
+                            self.newline()?;
                         }
                     }
                 }
